@@ -129,7 +129,45 @@ def name_check(case):
     return True, ""
 
 
+def cached_cases(tier, seed):
+    yield {"kind": "named-target-equals-contracted-index-of-a-cached-energy"}
+
+
+def cached_check(case):
+    """a request whose explicitly named target indices carry the names of
+    contracted (generic) indices inside an already cached result"""
+    code = r'''
+import sys, logging, warnings
+warnings.filterwarnings("ignore"); logging.disable(logging.CRITICAL)
+sys.path.insert(0, sys.argv[1])
+from adcgen.groundstate import GroundState
+from adcgen.operators import Operators
+from adcgen.intermediate_states import IntermediateStates
+from adcgen.secular_matrix import SecularMatrix
+from adcgen.expr_container import Expr
+from adcgen.simplify import simplify
+from adcgen.indices import Index
+gs = GroundState(Operators("mp"))
+names = sorted(s.name for s in gs.energy(1).atoms(Index) if s.space == "occ")
+m = SecularMatrix(IntermediateStates(gs, "pp"))
+r = simplify(Expr(m.isr_matrix_block(1, "ph,ph", f"{names[0]}a,{names[1]}b"), real=True))
+print("RESULT", len(r.terms), str(r), names)
+'''
+    p = subprocess.run([sys.executable, "-c", code, REPO], capture_output=True, text=True, timeout=600)
+    line = [ln for ln in p.stdout.splitlines() if ln.startswith("RESULT")]
+    if not line:
+        return False, "probe failed: " + p.stderr[-500:]
+    nterms = int(line[0].split()[1])
+    if nterms != 1:
+        return False, ("first order ph/ph block requested with target names that are contracted indices of the "
+                       "cached first order energy has " + str(nterms) + " terms instead of -<ja||ib>: " + line[0][:300])
+    return True, ""
+
+
 CHECKS = {
+    "independence.named_target_vs_cached_index": {
+        "function": "adcgen.indices:Indices.get_indices", "cases": cached_cases, "check": cached_check,
+        "bound": "one scenario: energy(1) cached, then isr_matrix_block(1, 'ph,ph') with the names of its contracted occupied indices as target names"},
     "tensor_names.classification": {
         "function": "adcgen.tensor_names:is_t_amplitude", "cases": name_cases, "check": name_check,
         "bound": "all strings of length <= 4 over {t,p,c,1,2,0,X,Y,x} (exhaustive)"},
